@@ -1,22 +1,22 @@
 SPECIFICATION Spec
 CONSTANTS
-  Proc = {p1}
+  Proc = {p1, p2}
   BackupProcs = {p1}
-  PruneProcs = {p1}
+  PruneProcs = {p2}
   Version = {"v1", "v2"}
   Needs <- NeedsB
-  KD = 1
-  MaxTime = 1
+  KD = 2
+  MaxTime = 5
   MaxPacks = 4
-  MaxCmds = 3
-  Concurrent = FALSE
-  AllowInstant = TRUE
+  MaxCmds = 4
+  Concurrent = TRUE
+  AllowInstant = FALSE
   AppendOnly = FALSE
   AllowDamage = FALSE
-  AllowCrash = TRUE
+  AllowCrash = FALSE
   AllowEarly = FALSE
   TickInPrune = TRUE
   UntypedDedup = FALSE
 VIEW View
-INVARIANTS TypeOK AllReadable BroughtBack NoDangling
+INVARIANTS TypeOK AllRecoverable AfterCleanPrune
 CHECK_DEADLOCK FALSE
